@@ -214,6 +214,14 @@ func compareSchema(r *rep.Report, a *analysed, reply map[string]any, real map[st
 					tag := reflect.StructTag(f.Tag)
 					target := tag.Get("gomacro-sql-foreign")
 					plain := f.T != nil && (f.T.K == "basic" || f.T.K == "ref" && strings.HasSuffix(f.T.Q, "sql.NullInt64"))
+					// … or of the table's own id type (a named int64): Parent IdNode tagged "Node"
+					if f.T != nil && f.T.K == "ref" && target == name {
+						for _, td := range a.Env.Decls {
+							if td.Q == f.T.Q && td.Kind == "named" && td.Under != nil && td.Under.K == "basic" && td.Name == "Id"+name {
+								plain = true
+							}
+						}
+					}
 					if target == "" || !plain || sqlNameOf[target] == "" || !f.GoExported {
 						continue
 					}
